@@ -88,3 +88,30 @@ Fixpoint brackets_wf (n : node) : bool :=
   | NLoop1CharBody body _ _ _ => brackets_wf body
   | _ => true
   end.
+
+(* what a prefiltered search assumes of the haystack along the positions it visits from p: the byte under the
+   cursor is the first byte of the UTF-8 encoding of the element the cursor reads; stepping right moves right;
+   after a position the prefilter rejects, it does not fire strictly inside that character; the walk ends at the end of the haystack.  True of
+   valid UTF-8 for every prefilter the compiler derives (they test lead bytes and literal prefixes); evaluated
+   by the driver on every case. *)
+Definition fb_ok (ix : indexer) (h : hay) (p : nat) : bool :=
+  match cnext ix true h p with
+  | Ok (Some (c, _)) => match nth_error h p with
+                        | Some b => (b =? utf8_first_byte c) && (c <=? CODE_POINT_MAX)
+                        | None => false
+                        end
+  | _ => true
+  end.
+
+Fixpoint pref_walk_ok (ix : indexer) (h : hay) (test : list N -> bool) (fuel : nat) (p : nat) : bool :=
+  match fuel with
+  | O => true
+  | S f =>
+      fb_ok ix h p &&
+      match ix_next_right_pos ix h p with
+      | Ok (Some p') => (p <? p')%nat && (test (skipn p h) || forallb (fun i => negb (test (skipn i h))) (seq (S p) (p' - S p))) &&
+                        pref_walk_ok ix h test f p'
+      | Ok None => (p =? length h)%nat
+      | Err _ => true
+      end
+  end.
